@@ -19,6 +19,9 @@ def jobs(tier):
     out.append(dict(name='file_load36_preload', src='h_files.cpp', defs={'NBYTES': 36, 'PRELOAD': 1, 'MAXCOUNT': 2, 'TAGCLASS': 1}, entry='h_load', tus=FL, fp='ieee', loopmax=600, maxsteps=8000000, timeout=900, bounds='EclFile(filename, preload) on every 36-byte file (tag not C???) whose header announces <= 2 elements and whose first record head announces <= 32 bytes'))
     out.append(dict(name='file_load_formatted', src='h_files.cpp', defs={'NBYTES': 0, 'CNTCHARS': 3}, entry='h_load_formatted', tus=FL, fp='ieee', loopmax=48, bound_is_hang=True, maxsteps=8000000, timeout=900,
                     bounds='EclFile(filename) on a formatted file: one 36-byte header line with a count field of 3 significant characters over {blank,-,0,1,3,9} and a 4-character type tag over {I,N,T,E,C,0,7,8,9,-,blank}'))
+    FR = FL + ['opm/io/eclipse/ERst.cpp']
+    out.append(dict(name='file_load_rst24', src='h_files.cpp', defs={'NBYTES': 24}, entry='h_load_rst', tus=FR, fp='ieee', loopmax=600, maxsteps=8000000, timeout=900, no_asserts=True, partial_sites=True, bounds='ERst(filename) on every 24-byte file (tag not C???, count negative or <= 2)'))
+    out.append(dict(name='file_load_rst36', src='h_files.cpp', defs={'NBYTES': 36}, entry='h_load_rst', tus=FR, fp='ieee', loopmax=600, maxsteps=8000000, timeout=900, bounds='ERst(filename) on every 36-byte file (tag not C???, count <= 2, first record head <= 32 bytes)'))
     out.append(dict(name='file_header48', src='h_files.cpp', defs={'NBYTES': 48}, entry='h_header', tus=FT, fp='real', loopmax=600, bounds='all 48-byte images (two headers: X231 path)'))
     for t, tn in ((0, 'inte'), (1, 'doub'), (2, 'logi'), (3, 'char'), (4, 'c0nn')):
         out.append(dict(name='file_array_' + tn, src='h_files.cpp', defs={'NBYTES': {0: 12, 1: 20, 2: 12, 3: 12, 4: 9}[t], 'C0ES': 5, 'ATYPE': t}, entry='h_array', tus=FT, fp='ieee', loopmax=600, maxsteps=4000000,
